@@ -600,7 +600,8 @@ def run_parent(mod, tier, seed, nshards_override=None):
         'property_id': mod.ID, 'tier': tier, 'seed': seed, 'level': mod.LEVEL, 'coverage': coverage,
         'assumptions': list(mod.ASSUMPTIONS), 'wall_s': round(wall, 2), 'violations': viol_count,
     }
-    evp = os.path.join(VERIF, 'evidence', f'{mod.ID}.json')
+    # (VERIF_EVIDENCE_DIR: used by tools/seed_recheck.py only, so that a run against a changed scratch tree never overwrites evidence about /repo)
+    evp = os.path.join(os.environ.get('VERIF_EVIDENCE_DIR') or os.path.join(VERIF, 'evidence'), f'{mod.ID}.json')
     os.makedirs(os.path.dirname(evp), exist_ok=True)
     with open(evp + '.tmp', 'w') as f:
         json.dump(evidence, f, indent=1, default=repr)
